@@ -759,16 +759,26 @@ def gen_level(rng, root, d, force_limit=False):
             d[w] = rng.choice(THRESH)
 
 
+def with_dups(rng, lst):
+    """the same list with repeated entries (arrays of an extended config are appended to the inherited ones): copies are
+    inserted before, between and after the other entries, so first-match indices and index -> string lookups are exercised"""
+    out = list(lst)
+    if out and rng.random() < 0.45:
+        for _ in range(rng.randint(1, 2)):
+            out.insert(rng.randint(0, len(out)), rng.choice(lst))
+    return out
+
+
 def gen_rule_lists(rng, r, mode=None):
     mode = mode or rng.choice(["allow", "allow", "deny", "deny", "naming", "mixed-bad"])
     if mode in ("allow", "mixed-bad"):
         for k, pool in (("allow_extensions", EXTS), ("allow_patterns", FILE_PATS + ["t/**/*.rs", "**/src/*"]), ("allow_files", FILE_PATS), ("allow_dirs", DIR_PATS)):
             if rng.random() < 0.45:
-                r[k] = rng.sample(pool, rng.randint(1, 3))
+                r[k] = with_dups(rng, rng.sample(pool, rng.randint(1, 3)))
     if mode in ("deny", "mixed-bad"):
         for k, pool in (("deny_extensions", EXTS), ("deny_patterns", FILE_PATS[:-1] + ["t/**/*.bin", "**/gen/*"]), ("deny_files", FILE_PATS[:-1]), ("deny_dirs", DIR_PATS[:-1])):
             if rng.random() < 0.45:
-                r[k] = rng.sample(pool, rng.randint(1, 3))
+                r[k] = with_dups(rng, rng.sample(pool, rng.randint(1, 3)))
     if mode == "naming" or rng.random() < 0.3:
         r["file_naming_pattern"] = rng.choice(NAMING)
 
@@ -851,12 +861,12 @@ def gen_cfg(rng, root, flavour):
         if gm == "allow":
             for k, pl in (("allow_extensions", EXTS), ("allow_files", FILE_PATS), ("allow_dirs", DIR_PATS)):
                 if rng.random() < 0.5:
-                    cfg.lists[k] = rng.sample(pl, rng.randint(1, 4))
+                    cfg.lists[k] = with_dups(rng, rng.sample(pl, rng.randint(1, 4)))
         elif gm == "deny":
             for k, pl in (("deny_extensions", EXTS), ("deny_patterns", FILE_PATS[:-1] + ["**/node_modules/", "**/gen/", "tmpd/", "t/**/*.bin", "**/d?/"]),
                           ("deny_files", FILE_PATS[:-1]), ("deny_dirs", DIR_PATS[:-1])):
                 if rng.random() < 0.5:
-                    cfg.lists[k] = rng.sample(pl, rng.randint(1, 3))
+                    cfg.lists[k] = with_dups(rng, rng.sample(pl, rng.randint(1, 3)))
         nr = rng.choice([0, 1, 2, 2, 3, 4])
         for i in range(nr):
             if flavour == "mix" and i < len(cfg.rules) and rng.random() < 0.6:
@@ -1268,6 +1278,8 @@ def evaluate(c):
     import re as _re
     if any(r_.get("relative_depth") and any(_re.search(r"[*?\[{]", x) and _re.search(r"^[^*?\[{]", x) for x in r_["scope"].split("/")) for r_ in cfg.rules):
         tg.add("relative-depth-partly-glob-component")
+    if any(len(set(l_)) < len(l_) for l_ in list(cfg.lists.values()) + [r_.get(k_, []) for r_ in cfg.rules for k_ in Cfg.RLISTS]):
+        tg.add("list-with-repeated-entry")
     if any(n.name in DOT_TARGETS for n in c["root"].walk()) and any(s_.get("kind") == "directed" for r_ in cfg.rules for s_ in r_.get("siblings", [])):
         tg.add("directed-sibling-on-dotfile")
     for v in d["limits"]:
